@@ -371,7 +371,11 @@ Record tt_obs := {
   r_result : option (list fval);       (* .result after the call; None: no such attribute *)
   r_n1 : Z; r_sum1 : list fval; r_sq1 : list fval;       (* accumulators[0].processed_traces / sum / sum_squared *)
   r_n2 : Z; r_sum2 : list fval; r_sq2 : list fval;
-  r_mean1 : list fval; r_var1 : list fval; r_mean2 : list fval; r_var2 : list fval   (* [] when absent *)
+  r_mean1 : list fval; r_var1 : list fval; r_mean2 : list fval; r_var2 : list fval;  (* [] when absent *)
+  (* container histories: the frame / preprocesses attributes of the two containers as they are when this run starts, when
+     they were re-assigned or mutated since the container was built (None: the case-level values) *)
+  r_over : option ((list nat * list preop) * (list nat * list preop));
+  r_fresh : bool                       (* this run (and the following ones) is made on a new TTestAnalysis *)
 }.
 Record tt_case := {
   tc_prec : prec;
@@ -382,12 +386,19 @@ Record tt_case := {
 }.
 
 Definition fnth (l : list fval) (j : nat) : fval := nth j l NaN.
+Definition rframe1 (c : tt_case) (r : tt_obs) : list nat := match r_over r with Some (x, _) => fst x | None => tc_frame c end.
+Definition rframe2 (c : tt_case) (r : tt_obs) : list nat := match r_over r with Some (_, y) => fst y | None => tc_frame c end.
+Definition rpres1 (c : tt_case) (r : tt_obs) : list preop := match r_over r with Some (x, _) => snd x | None => tc_pres c end.
+Definition rpres2 (c : tt_case) (r : tt_obs) : list preop := match r_over r with Some (_, y) => snd y | None => tc_pres c end.
+(* the column of each set at sample j, with the attribute values current at run r *)
+Definition rcol1 (c : tt_case) (j : nat) (r : tt_obs) : list Qc := column (tc_scale c) (rframe1 c r) (rpres1 c r) j (r_set1 r).
+Definition rcol2 (c : tt_case) (j : nat) (r : tt_obs) : list Qc := column (tc_scale c) (rframe2 c r) (rpres2 c r) j (r_set2 r).
 Definition has_fail (l : list (tstep Qc)) : bool := existsb is_fail l.
 
 (* run r at sample j, from model state a and cumulative columns all1 all2; returns what follows *)
 Definition run_sched (c : tt_case) (j : nat) (r : tt_obs) : sched Qc * list (tstep Qc) * list (tstep Qc) :=
-  let col1 := column (tc_scale c) (tc_frame c) (tc_pres c) j (r_set1 r) in
-  let col2 := column (tc_scale c) (tc_frame c) (tc_pres c) j (r_set2 r) in
+  let col1 := rcol1 c j r in
+  let col2 := rcol2 c j r in
   let s1 := mk_steps (r_bs r) (r_fail1 r) col1 in
   let s2 := mk_steps (r_bs r) (r_fail2 r) col2 in
   (weave (r_sched r) (tag T1 s1) (tag T2 s2), s1, s2).
@@ -397,10 +408,11 @@ Fixpoint sample_check (c : tt_case) (j : nat) (a : tt_analysis) (all1 all2 : lis
   | [] => true
   | r :: rest =>
       let p := tc_prec c in
-      let col1 := column (tc_scale c) (tc_frame c) (tc_pres c) j (r_set1 r) in
-      let col2 := column (tc_scale c) (tc_frame c) (tc_pres c) j (r_set2 r) in
-      let all1' := (all1 ++ col1)%list in
-      let all2' := (all2 ++ col2)%list in
+      let col1 := rcol1 c j r in
+      let col2 := rcol2 c j r in
+      let a := if r_fresh r then tt_fresh else a in
+      let all1' := ((if r_fresh r then [] else all1) ++ col1)%list in
+      let all2' := ((if r_fresh r then [] else all2) ++ col2)%list in
       let ex1 := is_exact p all1' in
       let ex2 := is_exact p all2' in
       let ntot := (qlen all1' + qlen all2')%Qc in
@@ -454,13 +466,14 @@ Fixpoint unchanged_ok (prev : option (list fval)) (rs : list tt_obs) : bool :=
   match rs with
   | [] => true
   | r :: rest =>
-      (Nat.eqb (r_exc r) 0 || option_eqb (list_eqb fval_same) (r_result r) prev)
+      (Nat.eqb (r_exc r) 0 || option_eqb (list_eqb fval_same) (r_result r) (if r_fresh r then None else prev))
       && unchanged_ok (r_result r) rest
   end.
 
 Definition tt_check (c : tt_case) : bool :=
   let L := length (tc_frame c) in
-  forallb (fun r => shape_ok (tc_frame c) (r_set1 r) && shape_ok (tc_frame c) (r_set2 r)
+  forallb (fun r => shape_ok (rframe1 c r) (r_set1 r) && shape_ok (rframe2 c r) (r_set2 r)
+                    && Nat.eqb (length (rframe1 c r)) L && Nat.eqb (length (rframe2 c r)) L
                     && Nat.ltb 0 (r_bs r) && fail_ok (r_bs r) (r_fail1 r) (r_set1 r) && fail_ok (r_bs r) (r_fail2 r) (r_set2 r)
                     && lens_ok L r) (tc_runs c)
   && unchanged_ok None (tc_runs c)
@@ -471,8 +484,8 @@ Fixpoint cum_spec (c : tt_case) (j : nat) (all1 all2 : list Qc) (rs : list tt_ob
   match rs with
   | [] => []
   | r :: rest =>
-      let all1' := (all1 ++ column (tc_scale c) (tc_frame c) (tc_pres c) j (r_set1 r))%list in
-      let all2' := (all2 ++ column (tc_scale c) (tc_frame c) (tc_pres c) j (r_set2 r))%list in
+      let all1' := ((if r_fresh r then [] else all1) ++ rcol1 c j r)%list in
+      let all2' := ((if r_fresh r then [] else all2) ++ rcol2 c j r)%list in
       option_map (fun w => (this (fst w), this (snd w))) (welch_def_c all1' all2') :: cum_spec c j all1' all2' rest
   end.
 Definition tt_expected (c : tt_case) : list (list (option (Q * Q))) :=
